@@ -31,7 +31,7 @@ CStart(c) ==
 \* phase 2: signatures computed from the copy, add request with the copy's versions; on Conflict the caller
 \* looks up again and is between the phases once more
 CFinish(c) ==
-  /\ Up /\ pend[c].on
+  /\ Up /\ pend[c].on /\ "ph" \notin DOMAIN pend[c]
   /\ LET p == pend[c]
          x == HandleVoteSnap(Ctx0(ks, st), p.m.kind, p.m, p.snap)
          retry == x.pan = "" /\ x.res = "Conflict"
@@ -42,7 +42,7 @@ CFinish(c) ==
 \* the caller's context ends while the kernel is inside its add request (the harness holds the round store write):
 \* the kernel finishes the request, nobody waits for the answer, the caller reports an internal error and does not retry
 CAbandon(c) ==
-  /\ Up /\ pend[c].on
+  /\ Up /\ pend[c].on /\ "ph" \notin DOMAIN pend[c]
   /\ LET p == pend[c]
          x == HandleVoteSnap(Ctx0(ks, st), p.m.kind, p.m, p.snap)
          wrote == Len(x.wlog) > 0
@@ -52,9 +52,28 @@ CAbandon(c) ==
      IN /\ Apply(x2, "CAbandon", [c |-> c], 0)
         /\ pend' = [pend EXCEPT ![c] = IF retry THEN [p EXCEPT !.snap = Snap(x.k, p.m)] ELSE NoPend]
 
+\* HandleProposedHeader between its two phases (headers of the voting height only: the next-height path restarts itself)
+CStartPH(c) ==
+  /\ Up /\ ~pend[c].on
+  /\ \E m \in W_PHMsgs :
+       /\ m.prop # 0
+       /\ LET sn == PHSnap(ks, m) IN
+            /\ sn.chk.status \in {"Check", "RoundTooOld", "RoundTooFarInFuture"}
+            /\ Apply([Ctx0(ks, st) EXCEPT !.res = "parked"], "CStartPH", [c |-> c, m |-> m], 0)
+            /\ pend' = [pend EXCEPT ![c] = [on |-> TRUE, ph |-> TRUE, m |-> m, snap |-> sn]]
+
+CFinishPH(c) ==
+  /\ Up /\ pend[c].on /\ "ph" \in DOMAIN pend[c]
+  /\ LET p == pend[c]
+         x == IF p.snap.chk.status = "RoundTooOld" THEN [Ctx0(ks, st) EXCEPT !.res = "RoundTooOld"]
+              ELSE IF p.snap.chk.status = "RoundTooFarInFuture" THEN [Ctx0(ks, st) EXCEPT !.res = "RoundTooFarInFuture"]
+              ELSE HandlePHFrom(Ctx0(ks, st), p.m, p.snap)
+     IN /\ Apply(x, "CFinishPH", [c |-> c], 0)
+        /\ pend' = [pend EXCEPT ![c] = NoPend]
+
 CNext ==
   /\ Len(hist) < MaxSteps
-  /\ \/ \E c \in Callers : CStart(c) \/ CFinish(c) \/ CAbandon(c)
+  /\ \/ \E c \in Callers : CStart(c) \/ CFinish(c) \/ CAbandon(c) \/ CStartPH(c) \/ CFinishPH(c)
      \/ (Up /\ (DoPH \/ DoSMEnter) /\ UNCHANGED pend)
 
 CView == <<ks, st, pan, pend>>
